@@ -257,6 +257,28 @@ def run(R):
                 "send() is reachable while an error is pending (the test is not `%s is None`: an exception object whose truth value is false - an "
                 "empty aggregate error, one defining __bool__/__len__ - counts as no error): the failure is dropped and the task resumes with None" % ep,
                 scfg_.fmt_path(p) if p else None)
+    # the bookkeeping attributes are read only from an error known to carry them: an error that no task has stamped yet (raised by a
+    # batch flush or a lazy future's provider, or one that refuses attributes) is thrown in as it is
+    for x in q.scope_nodes(step.node):
+        if isinstance(x, ast.Attribute) and isinstance(x.ctx, ast.Load) and isinstance(x.value, ast.Name) and x.value.id == ep and x.attr in ("_type_", "_traceback", "_task"):
+            stx = q.enclosing_stmt(x)
+            nodes_x = [y for y in scfg_.nodes if y.stmt is stx]
+
+            def carries(nd):
+                if nd.kind != "test":
+                    return None
+                e_, pos_ = nd.ast, True
+                while isinstance(e_, ast.UnaryOp) and isinstance(e_.op, ast.Not):
+                    e_, pos_ = e_.operand, not pos_
+                if isinstance(e_, ast.Call) and q.call_name(e_) == "hasattr" and len(e_.args) == 2 and q.src(e_.args[0]) == ep:
+                    return "T" if pos_ else "F"
+                return None
+            px = kit.path_avoiding_guard(scfg_, nodes_x, carries, N, dead_ok=True) if nodes_x else None
+            R.check(px is None and bool(kit.guard_edges_exist(scfg_, carries)), "C02.FLOW-THROW", "%s:reads:%s" % (step.qualname, x.attr), R.site(step, x),
+                    "%s.%s is read only after hasattr(%s, ...)" % (ep, x.attr, ep),
+                    "%s.%s is read for an error that need not carry it (not on the true edge of a hasattr test): an error that no task has stamped yet - raised by a "
+                    "batch flush or a lazy future - turns into AttributeError inside the stepper and the task fails with that instead" % (ep, x.attr),
+                    scfg_.fmt_path(px) if px else None)
     stamp_contained(R, ro, hier, "C02.CAPTURE")
     last_value_fresh(R, ro, "C02.FLOW-FRESH")
     exits_do_not_suppress(R, "C02.EXIT-PROPAGATES")
